@@ -200,10 +200,11 @@ def run_case(ctx, g, rng):
 
     def compare(monitor, leg, q, exp, got, extra=None):
         evaluated(monitor)
-        if len(conf) > 1:
-            ok = set(got) == set(exp)
-        else:
-            ok = collections.Counter(got) == collections.Counter(exp)
+        # "returns exactly the ... members": membership; how often a member is repeated is not promised (with several
+        # configured predicates every member comes once per predicate, and two URI prefixes can render the same URI)
+        ok = set(got) == set(exp)
+        if ok and len(conf) == 1 and collections.Counter(got) != collections.Counter(exp):
+            S.counters["wl:bindings-equal-as-sets-but-not-as-multisets"] += 1
         if not ok:
             violation(["C18"], monitor, "bindings-differ-from-expand_all-of-compress", leg=leg, query=q, expected=sorted(exp), observed=sorted(got),
                       configured_predicates=conf, **(extra or {}), **w0)
